@@ -133,6 +133,19 @@ Theorem C12_commonprefix : forall p0 rest,
 Proof. exact commonprefix_spec. Qed.
 Print Assumptions C12_commonprefix.
 
+(* the same for absolute paths, provided they share their first component (else: C12_commonprefix_refuted) *)
+Theorem C12_commonprefix_abs : forall p0 rest c0,
+  (forall p, In p (p0 :: rest) -> wfp p) ->
+  (forall p, In p (p0 :: rest) -> p_root p = p_root p0) ->
+  root_eqb (p_root p0) Absolute = true ->
+  (forall p, In p (p0 :: rest) -> exists t, p_comps p = c0 :: t) ->
+  exists r, commonprefix (p0 :: rest) = Some (Some r) /\ wfp r /\ p_root r = p_root p0 /\ p_destdir r = false /\
+    (forall p, In p (p0 :: rest) -> prefix (p_comps r) (p_comps p)) /\
+    (forall d, (forall p, In p (p0 :: rest) -> prefix d (p_comps p)) -> prefix d (p_comps r)) /\
+    (p_dir r = false <-> forall p, In p (p0 :: rest) -> p_comps p = p_comps p0).
+Proof. exact commonprefix_spec_abs. Qed.
+Print Assumptions C12_commonprefix_abs.
+
 (* the guard is needed: when every input is the root directory itself commonprefix raises *)
 Theorem C12_commonprefix_rootdir_refuted : exists a,
   mk (STR "") (RRoot Srcdir) None None = Some a /\ wfp a /\ commonprefix [a; a] = None.
